@@ -42,7 +42,7 @@ whose tokens carries a custom verb (`C02_curly_rootverb_witness`: the new scorin
 -/
 import Restful.Lemmas.Classify
 import Restful.Lemmas.StateShape
-import Restful.Lemmas.Translated
+import Restful.Lemmas.TieRequest
 namespace Restful
 namespace Props
 variable (E : ReEnv)
@@ -254,7 +254,7 @@ end C02Example
 -- also: Restful.StateShape.consts_shape
 -- also: Restful.StateShape.routing_shape
 
-/-! The regenerated tie (tools/gotrans → Gen/Translated.lean, Lemmas/Translated.lean). -/
+/-! The regenerated tie (tools/gotrans → Gen/Translated.lean, Lemmas/Tie*.lean). -/
 -- also: Restful.Tie.trim_space_cutset
 
 end Props
